@@ -11,9 +11,10 @@ REASONS = {100: b"Continue", 200: b"OK", 201: b"Created", 204: b"No Content", 30
 class Req:
     """a request plus the response the scripted application will give"""
 
-    def __init__(self, method=b"GET", status=200, blen=0, ov=1, ver=b"1.1", conn=None, body=b"", chunked=False, expect=False, hdrs=b"", extra=b"", host=True):
+    def __init__(self, method=b"GET", status=200, blen=0, ov=1, ver=b"1.1", conn=None, body=b"", chunked=False, expect=False, hdrs=b"", extra=b"", host=True, expval=b"100-continue"):
         self.method, self.status, self.blen, self.ov, self.ver, self.conn = method, status, blen, ov, ver, conn
         self.body, self.chunked, self.expect, self.rhdrs, self.extra, self.host = body, chunked, expect, hdrs, extra, host
+        self.expval = expval
         self.target = b"/s%db%do%d" % (status, blen, ov) + (b"h" + hdrs.hex().encode() if hdrs else b"")
 
     def head(self):
@@ -23,7 +24,7 @@ class Req:
         if self.conn is not None:
             h += b"Connection: " + self.conn + b"\r\n"
         if self.expect:
-            h += b"Expect: 100-continue\r\n"
+            h += b"Expect: " + self.expval + b"\r\n"
         if self.chunked:
             h += b"Transfer-Encoding: chunked\r\n"
         elif self.body or self.method in (b"POST", b"PUT") or True:
@@ -483,6 +484,20 @@ def special_histories(rng, flav):
             for rq in (r1, r2, r1):
                 ev += ["R1:" + hexs(rq.head()), "W1", "R1:" + hexs(rq.payload()), "W1"]
             H.append(("expect twice chunkh=%d chunked=%d" % (chunkh, chunked), "app=sync,chunk=%d" % chunkh, ev + ["E1:eof"] + tl, None))
+    # the Expect value as clients write it: any letter case, optional whitespace around the token
+    for k, val in enumerate((b"100-Continue", b"100-continue ", b"100-continue\t", b"   100-continue", b"100-CONTINUE  ")):
+        for chunked in (False, True):
+            r1 = Req(b"POST", 200, 3, 1, b"1.1", None, b"hello", chunked, True, expval=val)
+            ev = ["A"] + hs
+            for rq in (r1, r1, r1):
+                ev += ["R1:" + hexs(rq.head()), "W1", "R1:" + hexs(rq.payload()), "W1"]
+            H.append(("expect twice value=%d chunked=%d" % (k, chunked), "app=sync", ev + ["E1:eof"] + tl, None))
+    # the application's expect-continue handler refuses one request (417); the next one on the connection is asked about again
+    for chunked in (False, True):
+        no = Req(b"POST", 200, 3, 1, b"1.1", None, b"hello", chunked, True); no.target = b"/no"
+        yes = Req(b"POST", 200, 3, 1, b"1.1", None, b"hello", chunked, True)
+        ev = ["A"] + hs + ["R1:" + hexs(no.head()), "W1", "R1:" + hexs(yes.head()), "W1", "R1:" + hexs(yes.payload()), "W1", "E1:eof"]
+        H.append(("expect refused then accepted chunked=%d" % chunked, "app=sync,cont=1", ev + tl, None))
     bad = Req(b"POST", 200, 3, 1, b"1.1", None, b"hello", True, True)
     good = Req(b"POST", 200, 3, 1, b"1.1", None, b"hello", False, True)
     H.append(("expect then invalid then expect", "app=sync", ["A"] + hs + ["R1:" + hexs(bad.head()), "W1", "R1:" + hexs(b"zz\r\n"), "W1",
